@@ -4,7 +4,9 @@ patch="$1"; shift
 cd /repo || exit 2
 if ! git diff --quiet; then echo "/repo not clean"; exit 2; fi
 git apply "$patch" || { echo "patch does not apply"; exit 2; }
-trap 'git -C /repo checkout -- . ' EXIT
+# evidence files are rewritten by every run: keep the ones of the unchanged tree
+evbak=$(mktemp -d /tmp/evbak.XXXXXX); cp -a /verif/evidence/. "$evbak"/
+trap 'git -C /repo checkout -- . ; cp -a "$evbak"/. /verif/evidence/; rm -rf "$evbak"' EXIT
 for c in "$@"; do
   out=$(cd /verif && VERIF_TIER=${TIER:-quick} ./check $c --tier ${TIER:-quick} 2>&1); rc=$?
   echo "== $c exit=$rc  $(echo "$out" | grep -c '^VIOLATION') violation lines"
